@@ -87,3 +87,33 @@ Example partial_example_1 :
 Proof. vm_compute. split; reflexivity. Qed.
 Example partial_example_2 : no_dotdot_tail [120; SEP; DOT] = true /\ zix_normal [120; SEP; DOT] = [120; SEP].
 Proof. vm_compute. split; reflexivity. Qed.
+
+(* the proved class lies inside `plain` (none of the four finding classes) *)
+Theorem no_dotdot_tail_is_plain : forall s, no_dotdot_tail s = true -> plain s = true.
+Proof. exact no_dotdot_tail_plain. Qed.
+Print Assumptions no_dotdot_tail_is_plain.
+
+(* idempotence on the proved class (the class is closed under normalisation) *)
+Corollary zix_normal_idempotent_partial : forall s, c_string s -> no_dotdot_tail s = true ->
+  zix_normal (zix_normal s) = zix_normal s.
+Proof. exact zix_normal_idem_on_class. Qed.
+Print Assumptions zix_normal_idempotent_partial.
+
+(* FULL idempotence statements, REFUTED outside the proved class (inside the finding classes):
+     forall s, zix_normal (zix_normal s) = zix_normal s                 -- "//./" -> "/./" -> "/"
+     forall s, is_normal_form s = true -> peq (zix_normal s) s          -- "a../" -> "a.."        *)
+Theorem zix_normal_idempotent_refuted :
+  exists s, class_A s = true /\ zix_normal (zix_normal s) <> zix_normal s.
+Proof.
+  exists witness_idem. destruct refute_idem as (E1 & E2 & A). split; [exact A|].
+  rewrite E2, E1. discriminate.
+Qed.
+Print Assumptions zix_normal_idempotent_refuted.
+
+Theorem zix_normal_fixed_point_refuted :
+  exists s, class_C s = true /\ is_normal_form s = true /\ peqb (zix_normal s) s = false.
+Proof.
+  exists witness_C. destruct refute_fixed as (N & P). destruct refute_C as (O & _).
+  split; [|split; assumption]. revert O. vm_compute. intuition congruence.
+Qed.
+Print Assumptions zix_normal_fixed_point_refuted.
